@@ -55,7 +55,7 @@ def decl_block(g, lang):
     inprec = set(i for _, ts in g['precs'] for i in ts)
     late = []
     for i, t in enumerate(g['terms']):
-        num = ' %d' % t['num'] if t.get('num') is not None else (' ' + t['alias'] if t.get('alias') and not t['lit'] else '')
+        num = ' %d' % t['num'] if (t.get('num') is not None and not t.get('redecl')) else (' ' + t['alias'] if t.get('alias') and not t['lit'] else '')
         line = '%%token <%s> %s%s\n' % (t['tag'], gram.tname(g, i), num)
         if t.get('hidden'):
             continue          # a literal that occurs in a %prec only
@@ -143,14 +143,28 @@ func Run(mode string, input string) string {
 		out := []string{}
 		for _, in := range strings.Split(input, ",") { out = append(out, RunShared(in)) }
 		return strings.Join(out, " ; ")
+	case "rep":
+		// the same input parsed again and again on the shared parser / context: first result, last result, number of distinct results
+		f := strings.Split(input, ",")
+		n := 0
+		fmt.Sscan(f[1], &n)
+		first, last := "", ""
+		seen := map[string]bool{}
+		for i := 0; i < n; i++ {
+			last = RunShared(f[0])
+			if i == 0 { first = last }
+			seen[last] = true
+		}
+		return fmt.Sprint(first, " ; ", last, " ; ", len(seen))
 	case "xlate":
 		// the code-to-symbol translation of this variant, probed on every integer from input to four past the largest token code
-		lo, hi := 0, 0
-		fmt.Sscan(input, &lo)
-		for _, zzk := range []int{%(codes)s} { if zzk > hi { hi = zzk } }
-		out := []string{}
-		for c := lo; c <= hi+4; c++ { if v := translate(c); v != 0 { out = append(out, fmt.Sprint(c, "=", v)) } }
-		return strings.Join(out, " ")
+		// (every local name starts with zz: token constants of the grammar have names like c, hi, out)
+		zzlo, zzhi := 0, 0
+		fmt.Sscan(input, &zzlo)
+		for _, zzk := range []int{%(codes)s} { if zzk > zzhi { zzhi = zzk } }
+		zzout := []string{}
+		for zzc := zzlo; zzc <= zzhi+4; zzc++ { if zzv := translate(zzc); zzv != 0 { zzout = append(zzout, fmt.Sprint(zzc, "=", zzv)) } }
+		return strings.Join(zzout, " ")
 	case "tracen":
 		// a traced parse during which another parse (traced as well) runs from inside an action
 		f := strings.Split(input, ",")
@@ -229,9 +243,15 @@ function RunFresh(input :string) :string {
 for (const job of %(jobs)s) {
 	if (job[0] == "run") { console.log("run\\t" + job[1] + "\\t" + RunFresh(job[1])) }
 	else if (job[0] == "hist") { console.log("hist\\t" + job[1] + "\\t" + job[1].split(",").map(RunFresh).join(" ; ")) }
+	else if (job[0] == "rep") {
+		let zzf = job[1].split(","), zzs = new Set<string>(), zz1 = "", zzl = "";
+		for (let i = 0; i < parseInt(zzf[1]); i++) { zzl = RunFresh(zzf[0]); if (i == 0) { zz1 = zzl } zzs.add(zzl) }
+		console.log("rep\\t" + job[1] + "\\t" + zz1 + " ; " + zzl + " ; " + zzs.size)
+	}
 	else if (job[0] == "xlate") {
 		let zzo :string[] = [];
-		for (let c = parseInt(job[1]); c <= Math.max(0, ...[%(codes)s]) + 4; c++) { let v = translate(c); if (v != 0) { zzo.push(c + "=" + v) } }
+		const zzhi = Math.max(0, ...[%(codes)s]) + 4;
+		for (let zzc = parseInt(job[1]); zzc <= zzhi; zzc++) { let zzv = translate(zzc); if (zzv != 0) { zzo.push(zzc + "=" + zzv) } }
 		console.log("xlate\\t" + job[1] + "\\t" + zzo.join(" "))
 	}
 }
@@ -329,7 +349,7 @@ def run_i6(name, grammars, jobs, variants=ALL_VARIANTS, vet=False, race=False):
             extra = ['-g', os.path.join(d, 'graph.png')] if vn in ('gu', 'op') else []
             tasks.append((gname, vn, [yaccgo, 'generate', 'go'] + flags + extra + [y, os.path.join(d, 'p.go')]))
         if 'ts' in variants:
-            tj = [[m, p] for (m, p) in jobs.get(gname, []) if m in ('run', 'hist', 'xlate')]
+            tj = [[m, p] for (m, p) in jobs.get(gname, []) if m in ('run', 'hist', 'xlate', 'rep')]
             y = os.path.join(work, 'g%d.y' % gi)
             open(y, 'w').write(ts_text(g, tj))
             tasks.append((gname, 'ts', [yaccgo, 'generate', 'typescript', y, os.path.join(work, 'g%d.ts' % gi)]))
@@ -337,7 +357,7 @@ def run_i6(name, grammars, jobs, variants=ALL_VARIANTS, vet=False, race=False):
     def gen1(t):
         gname, vn, cmd = t
         try:
-            r = subprocess.run(cmd, capture_output=True, text=True, timeout=30)
+            r = subprocess.run(cmd, capture_output=True, text=True, timeout=180)
             return gname, vn, dict(rc=r.returncode, out=r.stdout, err=r.stderr[-2000:])
         except subprocess.TimeoutExpired:
             return gname, vn, dict(rc=None, out='', err='TIMEOUT')
@@ -428,7 +448,7 @@ def run_i6(name, grammars, jobs, variants=ALL_VARIANTS, vet=False, race=False):
                     return gname, None, 'generation failed'
                 out = os.path.join(work, 'g%d.ts' % gi)
                 try:
-                    rr = subprocess.run([vlib.NODE22, '--experimental-strip-types', '--no-warnings', out], capture_output=True, text=True, timeout=60)
+                    rr = subprocess.run([vlib.NODE22, '--experimental-strip-types', '--no-warnings', out], capture_output=True, text=True, timeout=900)      # all jobs of one grammar in one process: seconds when the machine is idle (every parse is under a reduction limit); the thorough tier on a loaded machine needed more than 60 s once
                 except subprocess.TimeoutExpired:
                     return gname, None, 'TIMEOUT'
                 if rr.returncode != 0:
